@@ -177,6 +177,14 @@ def run(ctx):
         ctx.check(ok, "R08.4", f, "args-applies-percent-in-order", "args(a, rest...) performs %s instead of `(*this) %% a` followed by `args(rest...)`: arguments are not rendered one by one, in order, each through operator%%" % shape, f)
         rets = [fmt(ir.unwrap(e["expr"].get("e"))) for _, _, e in f.roots() if e["expr"].get("k") == "return" and e["expr"].get("e") is not None]
         ctx.check(all(r == "(*this)" or ".args(" in r or r.startswith("args(") or r.startswith("this->args(") or "% " in r for r in rets) and rets, "R08.4", f, "args-returns-self", "args(a, rest...) returns %s" % rets, f)
+    # the chaining members hand back the SAME formatter: a by-value return type makes `f.args(a) % b` add b to a temporary copy
+    chain = [f for f in prog.fns.values() if f.has_cfg and f.cls == FMT and (f.op == "%" or f.name == "args") and (f.is_pattern or not f.flags.get("instantiation"))]
+    ctx.need("R08.4", "chaining members of formatter (operator%, args(...), args())", len(chain), 3)
+    for f in chain:
+        rt = (f.ret or "").strip()
+        ctx.check(rt.endswith("&") and not rt.endswith("&&") and "const" not in rt, "R08.4", f, "chains-by-reference:%s/%d" % (f.name, len(f.params)),
+                  "%s returns `%s`: whatever is chained onto its result (`f.args(a) %% b`, `f %% a %% b`) goes to a temporary copy and never reaches the formatter that is rendered" % (f.name, rt), f,
+                  why_ok=rt)
     # ---- R08.5
     me = [f for f in prog.fns.values() if f.has_cfg and f.is_pattern and (f.cls or "").startswith("nitro::except::detail::make_exception") and f.op == "()"]
     ctx.need("R08.5", "make_exception::operator() patterns", len(me), 2)
